@@ -193,6 +193,15 @@ Theorem offered_only_to_the_first_assignee :
 Proof. exact sys_offer_only_to_first_assignee. Qed.
 Print Assumptions offered_only_to_the_first_assignee.
 
+(** 9a. The same for everything written next to the assignee: kind, remote (relayer) address, retries. *)
+Theorem assignment_record_is_permanent :
+  forall ch ops1 ops2 m1 m2,
+  In m1 (queue (sy_q (srun ch ops1))) -> In m2 (queue (sy_q (srun ch (ops1 ++ ops2)))) -> mid m1 = mid m2 ->
+  massignee m1 = massignee m2 /\ mkind m1 = mkind m2 /\
+  meta_of (srun ch (ops1 ++ ops2)) (mid m2) = meta_of (srun ch ops1) (mid m1).
+Proof. exact sys_record_fixed. Qed.
+Print Assumptions assignment_record_is_permanent.
+
 (** 9b. ... and therefore eligibility is a fact about the moment of assignment only.  The strict reading
     "the assignee is in the CURRENT snapshot whenever the message is offered" is refuted: a validator
     that left the snapshot after the assignment is still the only one offered the message (nothing
